@@ -413,9 +413,9 @@ theorem compS_items_aux (cx : Ctx) (N A : Nat) : ∀ (s : Stmt),
       · trivial
     | some e =>
       simp only [compS] at hcnt ⊢
-      have hcn : (st.newLocal x).cnt ≤ N := hcnt
-      exact (compE_items cx _ N A (slots_lt (wf_newLocal hwf x) hcn) hc.args e .val _ hl).append
-        (storeVar_items (slots_lt (wf_newLocal hwf x) hcn) hc.args x)
+      have hcn : st.cnt + 1 ≤ N := by simpa [newLocal_cnt] using hcnt
+      exact (compE_items cx st.scopes N A (slots_lt hwf (by omega)) hc.args e .val st.nl hl).append
+        (storeVar_items (slots_lt (wf_newLocal (wf_nl hwf _) x) hcnt) hc.args x)
   | exprStmt e =>
     refine ⟨?_, fun lp k st h => by simp [ShapeCl] at h⟩
     intro lp k st hal hc hwf hcnt hl
